@@ -21,7 +21,8 @@ RULE = ("programs: sequences over the random-consuming APIs (rand/randn/normal/r
         "that draw.  non-trivial: >=2 different random APIs and a backward through fan-out (the fixed part or a "
         "training step); distinct by hash of the program"
         " Also: every program compared across fresh processes ends with a sweep over all random-consuming entry points (incl. a zero-width Linear); freed memory is poisoned with a run-specific value before every run so that uninitialised buffers differ between runs."
-        " Round 5: the fixed DAG contains a batch-norm node and is differentiated twice (gradients cleared in between) with identical digests.")
+        " Round 5: the fixed DAG contains a batch-norm node and is differentiated twice (gradients cleared in between) with identical digests."
+        " Round 6: Adam/AdamW with eps=0 and entries whose gradient is always exactly zero.")
 ASSUMPTIONS = ["BLAS threads pinned to 1 in every process (the property is about synapgrad, not OpenBLAS scheduling)",
                "'all allocation layouts' is sampled (hash seeds x allocation perturbations), not enumerated"]
 
